@@ -492,7 +492,6 @@ type verdict struct {
 	fails    int
 	// dashboards/folders as a tree (DashTree.v): per tenant, the accepted operations and the answers
 	tops, tobs map[int64][]string
-	knownFails int // failures of a known class after which the scenario was still judged to its end
 }
 
 func opSig(fl []flatOp) string {
@@ -807,11 +806,11 @@ func genDash(r *vhlib.Rng, n int, xtenant bool) []*scenario {
 // then renames and moves of folders at every level (ancestors of dashboards preferred), moves and
 // saves of dashboards, deletes, restarts — and a read of a dashboard after (almost) every write, so
 // that a read meets every kind of change ABOVE the dashboard's own folder without a save in between.
-//   stream "tree":            every folder name is introduced once per scenario and has no '/'
-//                             (guard of C20_dash_tree_read_current_fresh_names): all of folder id /
-//                             name / path / breadcrumbs must be what the tree gives;
-//   stream "tree_path_reuse": known class — names are reused / contain '/', so that a changed chain of
-//                             folders can have the path STRING the dashboard already stores.
+//   stream "tree":            every folder name is introduced once per scenario and has no '/';
+//   stream "tree_path_reuse": names are reused / contain '/', so that a changed chain of folders can
+//                             have the path STRING the dashboard already stores (class repaired).
+// In both, all of folder id / name / path / breadcrumbs of every read must be what the tree gives
+// (C20_dash_tree_read_current).
 func genDashTree(r *vhlib.Rng, n int, stream string) []*scenario {
 	orgs := []int64{0, 3}
 	bases := []string{"f", "Ordner ü", "x\"y", "d.", "A b", "Root", "漢", "q?&", "-"}
@@ -1063,8 +1062,8 @@ func genDashTree(r *vhlib.Rng, n int, stream string) []*scenario {
 	return scs
 }
 
-// genDashPathReuse: directed scenarios of the known class "stored path string still matches although
-// the chain of folders changed" (refreshFolderMetadata compares path strings only), each below a
+// genDashPathReuse: directed scenarios of the repaired class "stored path string still matches although
+// the chain of folders changed" (refreshFolderMetadata compared path strings only), each below a
 // random prefix of folders and with a restart at a random position.
 func genDashPathReuse(r *vhlib.Rng, n int) []*scenario {
 	var scs []*scenario
@@ -1484,21 +1483,19 @@ func checkDash(sc *scenario, sum *vhlib.Summary) *verdict {
 				return v
 			}
 			if gotFName != wantFName || !sameCrumbs(gotCrumbs, wantCrumbs) {
-				// same path STRING, other folders: refreshFolderMetadata compares path strings only
+				// same path STRING, other folder name or other chain of folders
 				detail := fmt.Sprintf("get dashboard %d (tenant %d, folder %d): folder.name %q breadcrumbs %s with path %q; the folder tree last written gives name %q breadcrumbs %s (same path string); history: %s",
 					f.Ref, f.Org, it.Parent, gotFName, crumbStr(gotCrumbs), gotPath, wantFName, crumbStr(wantCrumbs), hist())
-				switch sc.Class {
-				case "tree_path_reuse":
-					v.knownFails++
-					sum.Fail("dashboard_folder_info_stale_while_path_string_unchanged", detail, map[string]interface{}{"scenario": sc, "failing_op_index": k})
-				case "tree":
+				if sc.Class == "tree" {
 					// folder names are never reused in this stream: equal path strings mean equal chains
 					fail(cls("dashboard_folder_breadcrumbs_differ_from_tree"), detail, k)
-					return v
-				default:
-					// streams with a small pool of repeated / slashed names run into the known class by chance
-					sum.Count("store/dash/tolerated_stale_info_same_path_string")
+				} else {
+					// names are reused / contain '/': another chain of folders spells the stored path string
+					// (repaired: refreshFolderMetadata compares the whole stored folder info; a regression
+					// is a VIOLATION of this class)
+					fail("dashboard_folder_info_stale_while_path_string_unchanged", detail, k)
 				}
+				return v
 			}
 			tput(f.Org, fmt.Sprintf("GetDash %d", f.Ref), fmt.Sprintf("DInfo (Some (mkInfo %d %s %s %s))", maxInt(got.Parent, 0), vhlib.CoqStr(gotFName), vhlib.CoqStr(gotPath), coqCrumbs(gotCrumbs)))
 			v.ops = append(v.ops, fmt.Sprintf("Get %d %s", f.Org, vhlib.CoqStr(fmt.Sprint(f.Ref))))
@@ -2558,7 +2555,7 @@ func runStores(cfg vhlib.Config, r *vhlib.Rng, sum *vhlib.Summary) {
 	for _, tb := range []struct {
 		b        *bucket
 		name, fn string
-	}{{treeFresh, "cases_dashtree_fresh", "dt_bad_fresh"}, {treeAny, "cases_dashtree_reuse", "dt_bad"}} {
+	}{{treeFresh, "cases_dashtree_fresh", "dt_bad_wf"}, {treeAny, "cases_dashtree_reuse", "dt_bad_wf"}} {
 		for sh := 0; sh*40 < len(tb.b.names); sh++ {
 			lo, hi := sh*40, (sh+1)*40
 			if hi > len(tb.b.names) {
